@@ -17,19 +17,16 @@ def sh(cmd, **kw):
     return subprocess.run(cmd, shell=True, stdout=subprocess.PIPE, stderr=subprocess.STDOUT, text=True, errors="replace", **kw)
 
 def run_check(patch, prop):
-    assert sh("git -C /repo diff --quiet").returncode == 0, "/repo dirty"
-    r = sh("git -C /repo apply %s" % patch)
-    if r.returncode:
-        return None, "patch does not apply: " + r.stdout[-200:]
-    try:
-        c = sh("cd /verif && ./check %s --tier quick" % prop)
-    finally:
-        sh("git -C /repo checkout -- .")
-    kinds = sorted(set(re.findall(r"kind=(\S+)", c.stdout)))
+    """the seeded change in a scratch worktree of /repo HEAD, checked by a scratch copy of /verif (tools/try_seed_wt.sh):
+    /repo and /verif/evidence are never touched"""
+    c = sh("/verif/tools/try_seed_wt.sh %s %s" % (patch, prop))
+    if "patch does not apply" in c.stdout:
+        return None, ["patch does not apply"]
+    kinds = sorted(set(re.findall(r"replays/C\d+/(.+?)_[0-9a-f]{12}\.json", c.stdout)))
     return c.returncode, kinds
 
 seeds = []
-for rnd, base in (("", inc), ("r2", os.path.join(inc, "r2"))):
+for rnd, base in (("", inc), ("r2", os.path.join(inc, "r2")), ("r3", os.path.join(inc, "r3"))):
     if not os.path.isdir(base):
         continue
     for prop in sorted(os.listdir(base)):
@@ -39,10 +36,12 @@ for rnd, base in (("", inc), ("r2", os.path.join(inc, "r2"))):
         for mut in sorted(os.listdir(d)):
             if mut.startswith("mut"):
                 seeds.append((prop, mut, rnd, os.path.join(d, mut)))
-for l in (open(os.path.join(inc, "verify_r2.log")) if os.path.exists(os.path.join(inc, "verify_r2.log")) else []):
-    m = re.match(r"(C\d+/mut\d): demo_before=(\d+) demo_after=(\d+) suite=(\w+)", l)
-    if m:
-        verify["r2/" + m.group(1)] = (int(m.group(2)), int(m.group(3)), m.group(4))
+for rnd in ("r2", "r3"):
+    lp = os.path.join(inc, "verify_%s.log" % rnd)
+    for l in (open(lp) if os.path.exists(lp) else []):
+        m = re.match(r"(C\d+/mut\d): demo_before=(\d+) demo_after=(\d+) suite=(\w+)", l)
+        if m:
+            verify[rnd + "/" + m.group(1)] = (int(m.group(2)), int(m.group(3)), m.group(4))
 only = sys.argv[1:]
 # regression seeds: the reverse of each fix: commit
 reg = os.path.join(inc, "regress")
@@ -84,7 +83,7 @@ for prop, mut, rnd, src in seeds:
         "confirmed_in_scratch_worktree": None if v is None else {
             "demo_exit_on_unmodified_tree": v[0], "demo_exit_with_change": v[1], "repository_test_suite_failing_set": v[2],
             "how": "tools/verify_seeds.sh: git worktree of /repo HEAD, PYTHONPATH=<worktree>/src, demo.py before/after git apply, full pytest before/after"},
-        "ran": "tools/run_seeds.py: git -C /repo apply patch.diff; ./check %s --tier quick; git -C /repo checkout -- ." % prop,
+        "ran": "tools/run_seeds.py -> tools/try_seed_wt.sh patch.diff %s (scratch worktree of /repo HEAD + scratch copy of /verif, quick tier)" % prop,
         "check_exit": rc, "detected": rc == 1, "violation_kinds": kinds,
     }
     json.dump(meta, open(os.path.join(dst, "meta.json"), "w"), indent=1)
